@@ -1,41 +1,61 @@
 #!/usr/bin/env python3
-"""Must-fail corpus: applies each patch under selftest/mutants and seeded/*/patch.diff to /repo,
-runs the property's check, expects exit 1 with a VIOLATION line, and restores /repo.
-usage: tools/selftest.py [name-substring ...]"""
-import json, subprocess, sys, os, glob
-V = '/verif'
+"""Must-fail corpus: applies each patch under selftest/mutants and seeded/*/patch.diff to a scratch
+worktree of /repo (under /tmp, removed afterwards; /repo itself is never touched), runs the property's
+quick check against that tree (VERIF_REPO), and expects exit 1 with a VIOLATION line naming the expected obligation.
+usage: tools/selftest.py [-j N] [name-substring ...]"""
+import json, subprocess, sys, os, shutil, tempfile
+from concurrent.futures import ThreadPoolExecutor
+V = os.path.dirname(os.path.dirname(os.path.abspath(__file__)))
 exp = json.load(open(f'{V}/selftest/expect.json'))
-sel = sys.argv[1:]
-bad = 0
+args = sys.argv[1:]
+J = 4
+if args and args[0] == '-j':
+    J = int(args[1]); args = args[2:]
+sel = args
 def sh(cmd, **kw):
     return subprocess.run(cmd, shell=True, capture_output=True, text=True, **kw)
-if sh('git -C /repo status --porcelain --untracked-files=no').stdout.strip():
-    print('refusing: /repo has uncommitted changes'); sys.exit(2)
-for e in exp:
+def one(e):
     name = e['patch']
-    if sel and not any(s in name for s in sel):
-        continue
     path = name if name.startswith('/') else f'{V}/{name}'
-    r = sh(f'git -C /repo apply {path}')
-    if r.returncode != 0:
-        print(f'SKIP {name}: patch does not apply: {r.stderr.strip()[:200]}'); bad += 1; continue
+    wt = tempfile.mkdtemp(prefix='govc-st-')
+    os.rmdir(wt)
+    lines = []
+    ok = True
     try:
-        outs = []
-        ok = True
+        r = sh(f'git -C /repo worktree add --detach {wt} HEAD')
+        if r.returncode != 0:
+            return False, [f'SKIP {name}: worktree: {r.stderr.strip()[:200]}']
+        # uncommitted contract edits in /repo (work in progress) are carried over
+        d = sh('git -C /repo diff HEAD').stdout
+        if d.strip():
+            subprocess.run(f'git -C {wt} apply', shell=True, input=d, text=True, capture_output=True)
+        r = sh(f'git -C {wt} apply {path}')
+        if r.returncode != 0:
+            return False, [f'SKIP {name}: patch does not apply: {r.stderr.strip()[:200]}']
         for prop in e['property'] if isinstance(e['property'], list) else [e['property']]:
-            r = sh(f'cd {V} && VERIF_EVIDENCE_DIR={V}/out/selftest-evidence ./check {prop} quick')  # never overwrite the committed evidence with a mutant run
-            outs.append(r.stdout)
+            env = dict(os.environ, VERIF_REPO=wt, VERIF_EVIDENCE_DIR=f'{wt}.out/evidence', VERIF_OUT=f'{wt}.out/out')
+            r = sh(f'cd {V} && ./check {prop} quick', env=env)
             viol = [l for l in r.stdout.splitlines() if l.startswith('VIOLATION')]
             failed = [l for l in r.stdout.splitlines() if 'failed obligation' in l]
             hit = all(any(x in l for l in failed) for x in e.get('expect', []))
             if r.returncode == 1 and viol and hit:
-                print(f'CAUGHT {name} by {prop}: {len(failed)} obligation(s), e.g. {failed[0].strip()[:160] if failed else ""}')
-                print('       ', viol[0])
+                lines.append(f'CAUGHT {name} by {prop}: {len(failed)} obligation(s), e.g. {failed[0].strip()[:160] if failed else ""}')
             else:
                 ok = False
-                print(f'MISSED {name} by {prop}: exit={r.returncode} violations={len(viol)} expected={e.get("expect")}')
+                lines.append(f'MISSED {name} by {prop}: exit={r.returncode} violations={len(viol)} expected={e.get("expect")} {(r.stderr or "")[-300:].strip() if r.returncode not in (0,1) else ""}')
+    finally:
+        sh(f'git -C /repo worktree remove --force {wt}')
+        shutil.rmtree(wt, ignore_errors=True)
+        shutil.rmtree(wt + '.out', ignore_errors=True)
+    return ok, lines
+todo = [e for e in exp if not sel or any(s in e['patch'] for s in sel)]
+bad = 0
+with ThreadPoolExecutor(J) as ex:
+    for ok, lines in ex.map(one, todo):
+        for l in lines:
+            print(l, flush=True)
         if not ok:
             bad += 1
-    finally:
-        sh('git -C /repo checkout -- .')
+sh('git -C /repo worktree prune')
+print(f'{len(todo)-bad}/{len(todo)} as expected')
 sys.exit(1 if bad else 0)
